@@ -3,6 +3,6 @@ CONSTANTS
   MaxChunks = 2
   Kinds = {"import", "var", "type", "vargroup", "func", "method", "opmethod", "stmt", "block", "flit", "flitres", "conv"}
   Variants = {"plain", "lead", "trail", "inner", "blank"}
-  FuncExprIsDecl = TRUE
+  FuncExprIsDecl = FALSE
 INVARIANTS WantIsStatement CodeKeepsBytes SplitSane CodeMeetsStatement Export
 PROPERTY Terminates
